@@ -227,7 +227,12 @@ impl FarmGen {
             // budget lost to rounding can exceed it
             3 => Some(s + if self.rng.gen_range(0..4) == 0 { self.rng.gen_range(400..1200) } else { self.rng.gen_range(30..400) }),
             // practically open-ended farms: nothing bounds the end epoch
-            4 if self.rng.gen_bool(0.4) => Some(*[300_000_000_000_000u64, u64::MAX / 2, u64::MAX - 1, u64::MAX].choose(&mut self.rng).unwrap()),
+            4 if self.rng.gen_bool(0.4) => {
+                // the last epochs whose start still fits the chain's nanosecond clock (year 2554):
+                // adding the expiration time to it does not
+                let last = (18_446_744_073u64 - w.cfg.start_time) / w.cfg.epoch_duration;
+                Some(*[300_000_000_000_000u64, u64::MAX / 2, u64::MAX - 1, u64::MAX, last - 1, last - 2, last - self.rng.gen_range(3..40), last, last + 1].choose(&mut self.rng).unwrap())
+            }
             _ => Some(s + self.rng.gen_range(2..12)),
         };
         let long = end.map(|e| e > s + 20).unwrap_or(false);
